@@ -63,11 +63,6 @@ impl Backend {
             })
             .collect();
 
-        // Early return if no fixtures have return types
-        if fixture_map.is_empty() {
-            return Ok(Some(Vec::new()));
-        }
-
         // Convert LSP range to internal line numbers (1-based)
         let start_line = Self::lsp_line_to_internal(range.start.line);
         let end_line = Self::lsp_line_to_internal(range.end.line);
@@ -80,8 +75,25 @@ impl Backend {
                 continue;
             }
 
-            // Look up return type from pre-computed map
-            if let Some(&return_type) = fixture_map.get(usage.name.as_str()) {
+            // A fixture that requests its own name overrides an outer fixture and receives
+            // that fixture's value: show the overridden fixture's return type, as
+            // go-to-definition and hover on the parameter do.
+            let overridden = self
+                .fixture_db
+                .get_definition_at_line(&file_path, usage.line, &usage.name)
+                .map(|own| {
+                    self.fixture_db.find_closest_definition_excluding(
+                        &file_path,
+                        &usage.name,
+                        Some(&own),
+                    )
+                });
+            // Otherwise look up the return type from the pre-computed map
+            let return_type: Option<&str> = match &overridden {
+                Some(outer) => outer.as_ref().and_then(|d| d.return_type.as_deref()),
+                None => fixture_map.get(usage.name.as_str()).copied(),
+            };
+            if let Some(return_type) = return_type {
                 // Check if this parameter already has a type annotation
                 // by looking at the text after the parameter name in the current buffer
                 if parameter_has_annotation(&lines, usage.line, usage.end_char) {
